@@ -12,7 +12,7 @@ lean/Amoco/Props/C06.lean are tied to /repo on every run by
 x86 (partial): theorems about the flag / extension / condition-code helpers (Amoco/Model/Flags.lean)
 are tied by correspondence on the real helper functions; the instruction bodies (`i_XXX` of
 x64/asm.py) are NOT modelled — they are compared with native execution on the host CPU
-(harness/x86_native.py, harness/native/x86exec.c), restricted to architecturally defined flags.
+(harness/rv_x86.py, harness/native/x86exec.c), restricted to architecturally defined flags.
 """
 import sys, os, json
 from common import *
@@ -258,19 +258,19 @@ def riscv_part(ck, drv, tier, corr_broken, machinery):
                 continue
             # amoco agrees with the manual here; the model must agree with amoco
             if ops_real != ops_model:
-                corr_broken.append(("operands %s %s" % (tag, mn_ref), case, ops_real, ops_model))
+                corr_broken.append(("operands %s %s" % (tag, mn_ref), case, ops_real, ops_model, (isa, mn_ref)))
             g = gen_ans.get(ci)
             if g is not None:
                 gm = norm_drv(g)
                 if isinstance(gm, dict) and "err" in gm:
                     if gm["err"] == "unmodelled":
                         ck.count("rv.model-outside-fragment")
-                    corr_broken.append(("generated DSL %s %s" % (tag, mn_ref), case, real, gm))
+                    corr_broken.append(("generated DSL %s %s" % (tag, mn_ref), case, real, gm, (isa, mn_ref)))
                 else:
                     if not pcdef:
                         gm = dict(gm, pc=real["pc"])
                     if gm != dict(real, regs=[0] + real["regs"][1:]):
-                        corr_broken.append(("generated DSL %s %s" % (tag, mn_ref), case, real, gm))
+                        corr_broken.append(("generated DSL %s %s" % (tag, mn_ref), case, real, gm, (isa, mn_ref)))
             # second stream, oracle only: the same bits held as "negative" constants (sf=True)
             if stream == "directed" and (ci % 3 == 0 or not quick):
                 real2 = rv_amoco.run(isa, i, regs, pc, mem, dump, signed_rep=True)
@@ -284,6 +284,8 @@ def riscv_part(ck, drv, tier, corr_broken, machinery):
                               (tag, mn_ref, word, brief(real2, rd), brief(twin, rd)), "oracle", "oracle rvRef (state representation)",
                               case=dict(case, signed_representation=True), real=real2, expected=twin)
 
+    # disagreements on a mnemonic for which a failing input was reported are consequences of that defect
+    corr_broken[:] = [c for c in corr_broken if not (len(c) > 4 and c[4] in seen_violation)]
     # obligations of the generated table without a failing input
     for (isa, mn), st in sorted(broken_gen.items()):
         if (isa, mn) not in seen_violation:
@@ -319,11 +321,8 @@ def main(tier):
     broken = ck.build_and_audit(["Amoco.Props.C06"])
     drv = Driver("drv_rv")
     riscv_part(ck, drv, tier, corr_broken, machinery)
-    try:
-        import c06_x86
-        c06_x86.run(ck, drv, tier, corr_broken, machinery)
-    except ImportError:
-        ck.count("x86.part-not-built")
+    import rv_x86
+    rv_x86.run(ck, drv, tier, corr_broken, machinery)
     drv.close()
 
     if machinery:
@@ -336,7 +335,7 @@ def main(tier):
                 continue
         ck.report("C06:proof-obligation", "proof obligation broken: %s" % b[:300], "proof-obligation", b[:2000], failing_input_found=False)
     if corr_broken:
-        name, case, real, mod = corr_broken[0]
+        name, case, real, mod = corr_broken[0][:4]
         ck.report("C06:correspondence", "model and code disagree on %d cases (first: %s) although amoco agrees with the reference there"
                   % (len(corr_broken), name), "correspondence", "correspondence SemDsl/operands ~ amoco riscv (%s)" % name,
                   case=case, real=real, model=mod, failing_input_found=False)
@@ -353,5 +352,64 @@ def main(tier):
                      "opcodes; non-trivial = decoded by amoco to the manual's mnemonic (distinct by word+state)")
 
 
+def replay(path):
+    """re-run exactly the case of a replay file on the current tree and print real / model / expected"""
+    rec = json.load(open(path))
+    case = rec.get("case") or {}
+    print("replay %s: %s [%s]" % (path, rec.get("what"), rec.get("signature")))
+    print("  broken:", rec.get("broken"))
+    if "word" in case:
+        import rv_amoco
+        translate_riscv.emit(REPO, GEN_PATH)
+        ok, out = lake_build(["drv_rv"])
+        if not ok:
+            print("  driver does not build:", out[-500:])
+            return 2
+        drv = Driver("drv_rv")
+        isa, word = case["isa"], int(case["word"], 16)
+        regs, pc = [int(v, 16) for v in case["regs"]], int(case["pc"], 16)
+        mem = {int(a, 16): b for a, b in case["mem"].items()}
+        dump = sorted(mem)
+        tm = rv_ref.Memory(mem)
+        st = rv_ref.step(isa, word, regs, pc, tm)
+        expected = norm_ref(st[1], st[2], tm, dump) if st else None
+        base = {"op": "rv.step", "isa": isa, "word": word, "regs": regs, "pc": pc, "mem": [[a, b] for a, b in sorted(mem.items())], "dump": dump}
+        i = rv_amoco.decode(isa, word)
+        if i is None or isinstance(i, str):
+            real = "not-decoded" if i is None else i
+            model = None
+        else:
+            real = rv_amoco.run(isa, i, regs, pc, mem, dump, signed_rep=bool(case.get("signed_representation")))
+            model = norm_drv(drv.ask(dict(base, mode="generated", mn=i.mnemonic, ops=rv_amoco.dump_operands(isa, i)))) \
+                if rv_amoco.has_semantics(isa, i.mnemonic) else "no-semantics"
+        print("  real     :", real)
+        print("  model    :", model)
+        print("  expected :", expected, "(Lean rvRef:", norm_drv(drv.ask(dict(base, mode="ref"))) == expected, ")")
+        drv.close()
+        return 0 if real == expected else 1
+    if "code" in case:
+        import rv_x86
+        nat = rv_x86.Native()
+        code = bytes.fromhex(case["code"])
+        regs, flags = [int(v, 16) for v in case["regs"]], int(case["rflags"], 16)
+        mem = bytes.fromhex(case["mem_pattern"]) * (rv_x86.WIN // 256)
+        st, nregs, nflags, nmem = nat.run(code, regs, flags, mem)
+        i = rv_x86.amoco_decode(code)
+        real = rv_x86.amoco_run(i, regs, flags, mem) if i is not None and not isinstance(i, str) else ("not-decoded" if i is None else i)
+        if isinstance(real, dict) and "mem" in real:
+            real = dict(real, mem="same" if real["mem"] == nmem else "differs", regs=[hx(v) for v in real["regs"]])
+        print("  real     :", i, real)
+        print("  model    : (x86 instruction bodies are not modelled)")
+        print("  expected : status", st, "regs", ["%x" % v for v in nregs] if nregs else None, "flags", rv_x86.flags_of(nflags) if nflags is not None else None)
+        nat.close()
+        return 0
+    print("  real     :", rec.get("real"))
+    print("  model    :", rec.get("model"))
+    print("  expected :", rec.get("expected"))
+    return 0
+
+
 if __name__ == "__main__":
+    if len(sys.argv) > 2 and sys.argv[1] == "--replay":
+        sys.exit(replay(sys.argv[2]))
     sys.exit(main(sys.argv[1] if len(sys.argv) > 1 else "quick"))
